@@ -293,10 +293,11 @@ func (c *VirtualTable) BestIndex(input []IndexInput, order []OrderInput) (*Index
 		desc = &a
 	}
 	if *desc {
-		out.IdxStr = "desc " + out.IdxStr
-	} else {
-		out.IdxStr = "asc  " + out.IdxStr
+		// Scan forward and leave descending order to SQLite's sorter: the
+		// tree's backward cursor skips entries or fails on multi-level trees.
+		out.AlreadyOrdered = false
 	}
+	out.IdxStr = "asc  " + out.IdxStr
 	dbg("BESTINDEX %+v -> %s\n", input, out.IdxStr)
 	return out, nil
 }
